@@ -51,6 +51,13 @@ pub enum Simple {
     SendH { host: String, node: String, lane: String, value: i32, ow: bool },
     #[form(tag = "fail")]
     Fail,
+    /// create a registered commander for a lane of a local node and keep it under `name`
+    #[form(tag = "mkc")]
+    MkC { name: String, node: String, lane: String },
+    /// send through a registered commander (`c0` is created in on_start); ow: `send` (may be
+    /// superseded) or `send_queued`
+    #[form(tag = "sendc")]
+    SendC { name: String, value: i32, ow: bool },
     /// set lane `v` from a timer of the agent itself, `d` tenths of the inactivity timeout from now
     #[form(tag = "laterv")]
     LaterV { d: i32, v: i32 },
@@ -111,6 +118,8 @@ impl TruthLog {
 #[derive(Clone)]
 pub struct TestLifecycle {
     pub log: Arc<TruthLog>,
+    /// registered commanders by name: (commander, node, lane)
+    pub cmdrs: Arc<Mutex<std::collections::HashMap<String, (swimos::agent::commander::Commander<TestAgent>, String, String)>>>,
 }
 
 fn sorted(m: &std::collections::HashMap<i32, i32>) -> Vec<(i32, i32)> {
@@ -135,6 +144,13 @@ impl TestLifecycle {
                 context.effect(move || {
                     log.push(Truth::Start { v, w, t, vs, m, ms });
                 })
+            })
+            .followed_by({
+                // one commander exists from the start of the agent
+                let reg = self.cmdrs.clone();
+                context.create_commander(None, "/t0", "x").and_then(move |c| context.effect(move || {
+                    reg.lock().insert("c0".to_string(), (c, "/t0".to_string(), "x".to_string()));
+                }))
             })
     }
 
@@ -273,6 +289,28 @@ impl TestLifecycle {
                         SendCommand::new(addr, value, ow)
                             .followed_by(context.effect(move || log.push(Truth::Sent { node, lane, value, ow }))),
                     )
+                }
+                Simple::MkC { name, node, lane } => {
+                    let reg = self.cmdrs.clone();
+                    Box::new(context.create_commander(None, &node, &lane).and_then(move |c| context.effect(move || {
+                        reg.lock().insert(name, (c, node, lane));
+                    })))
+                }
+                Simple::SendC { name, value, ow } => {
+                    let reg = self.cmdrs.clone();
+                    Box::new(context.effect(move || reg.lock().get(&name).cloned()).and_then(move |entry: Option<(swimos::agent::commander::Commander<TestAgent>, String, String)>| {
+                        let h: Box<dyn EventHandler<TestAgent> + Send> = match entry {
+                            Some((c, node, lane)) => {
+                                if ow {
+                                    Box::new(c.send(value).followed_by(context.effect(move || log.push(Truth::Sent { node, lane, value, ow }))))
+                                } else {
+                                    Box::new(c.send_queued(value).followed_by(context.effect(move || log.push(Truth::Sent { node, lane, value, ow }))))
+                                }
+                            }
+                            None => Box::new(context.effect(|| ())),
+                        };
+                        h
+                    }))
                 }
                 Simple::LaterV { d, v } => Box::new(context.run_after(std::time::Duration::from_secs(3) * (d.max(0) as u32), context.set_value(TestAgent::V, v))),
                 Simple::Fail => Box::new(context.fail::<(), _>(std::io::Error::new(std::io::ErrorKind::Other, "requested failure"))),
